@@ -30,6 +30,13 @@ CHECKS = [
               "spellings) plus jaxtyped dataclasses; every verdict must equal the solver's and therefore each other. Focused generator modes "
               "share one variadic / broadcast name across all arguments.",
          note="trusted: satisfiable() and match() in vf/models/dimlang.py (cross-checked per case); typeguard 2.13.3 / beartype 0.22.9; NumPy arrays"),
+    dict(property_id="C13", level="exploration", design_ref="DESIGN.md §5 C13",
+         technique="Hypothesis-generated ill-typed calls; the raised exception's class, stage sentence, blamed parameter, listed bindings and __cause__ are compared with a sequential reference walk of the signature",
+         text="For every generated rejected call (failure at any parameter position or at the return value, Unions whose first alternative "
+              "binds and fails, structured PyTrees, annotation misuse) under both typecheckers, both call styles and both values of the "
+              "remove-stack switch, the message must name the first failing parameter of the reference walk and list exactly the bindings "
+              "made by the checks that passed before it.",
+         note="trusted: reference matcher + PyTree model; relies on typeguard 2.13.3/beartype 0.22.9 visiting parameters in signature order; message format parsed by vf/obs.py"),
 ]
 _pending = "check not built yet in this round (will be claimed once its machinery is committed)"
 NOT_APPLICABLE = [dict(property_id=f"C{i:02d}", reason=_pending) for i in range(1, 21)
